@@ -57,10 +57,33 @@ def tricky_prefix(r):
         out.append(['define-fun', 'rw', [], ['_', 'BitVec', '8'],
                     [['_', 'zero_extend', '3'], '_rw']])
         out.append(['assert', ['=', 'rw', '#x03']])
+    if r.random() < 0.5:
+        # a later renaming (SimplifySymbolNames shortens _cw0 to _cw) makes
+        # the name taken that a mutator would invent for cw
+        out.append(['declare-const', 'cw', ['_', 'BitVec', '8']])
+        out.append(['declare-const', r.choice(['_cw0', '_cwx', '__cw']),
+                    ['_', 'BitVec', '8']])
+        out.append(['declare-const', 'dv', 'String'])
+        out.append(['declare-const', r.choice(['dv_prefixx', 'dv_suffix0']),
+                    'String'])
+        out.append(['assert', ['str.contains', 'dv', '"d"']])
     if r.random() < 0.3:
         out.append(['declare-const', 'falsy', 'Bool'])
         out.append(['assert', ['or', 'falsy', ['not', 'falsy']]])
     return out
+
+
+def takes_inventable_name(before, after):
+    """Does the renaming make a name declared that a mutator would invent
+    for another declared symbol (_x, __x, x_prefix, x_suffix, |_x|)?"""
+    for b in after - before:
+        core = b[1:-1] if len(b) > 2 and b[0] == '|' == b[-1] else b
+        for a in after:
+            ac = a[1:-1] if len(a) > 2 and a[0] == '|' == a[-1] else a
+            if a != b and core in ('_' + ac, '__' + ac, ac + '_prefix',
+                                   ac + '_suffix'):
+                return True
+    return False
 
 
 def declared_symbols(nested):
@@ -319,6 +342,8 @@ def explore(ns, res, r, nested, origin, rounds):
         declared = declared_symbols(nested_now)
         ids = all_ids(exprs)
         results = []
+        renamed = []
+        taking = []
         for node in ns.nodes.bfs(exprs):
             for mname, m in muts:
                 try:
@@ -354,11 +379,28 @@ def explore(ns, res, r, nested, origin, rounds):
                                          f'{origin}:r{rnd}')
                     if out is not None and out is not exprs:
                         results.append(out)
+                        if mname in ('SimplifySymbolNames',
+                                     'SimplifyQuotedSymbols'):
+                            renamed.append(out)
+                            if takes_inventable_name(
+                                    declared, declared_symbols(
+                                        refmodel.to_nested_list(out))):
+                                taking.append(out)
         if not results or rnd == rounds:
             break
         # a partially reduced form: continue from a random accepted result
-        exprs = ns.nodes.reduplicate(r.choice(results))
+        # (the mutator instances stay the same, as in a real run); renamings
+        # are preferred half of the time, they change which names are taken
+        pick = renamed if renamed and r.random() < 0.5 else results
+        if taking and r.random() < 0.7:
+            # ... above all those after which a name that a mutator may
+            # already have invented for some declaration is taken
+            pick = taking
+            res.count('partially_reduced_inputs_taking_an_inventable_name')
+        exprs = ns.nodes.reduplicate(r.choice(pick))
         res.count('partially_reduced_inputs')
+        if pick is renamed:
+            res.count('partially_reduced_inputs_after_renaming')
 
 
 def shard(args):
@@ -409,7 +451,7 @@ def shard(args):
 
 def run(ctx):
     n = 5 if ctx.tier == 'quick' else 50
-    shards = [{'shard': i, 'n': n, 'rounds': 1 if ctx.tier == 'quick' else 3}
+    shards = [{'shard': i, 'n': n, 'rounds': 2 if ctx.tier == 'quick' else 4}
               for i in range(common.NCPU)]
     results = common.run_shards('checks.c15', shards, timeout=3400)
     common.merge_shards(ctx, results)
